@@ -9,21 +9,21 @@ CHECKS = {
          "Held on the generated programs only: exact comparison over a finite alphabet (VT excluded) within 200k product states, otherwise sampling. Trusted: Go regexp/syntax (go1.26.8) as definition of what a regex accepts; the reference model."),
  "C09": ("exploration", "4 C09", "idempotence / --check agreement / independent layout model, on generated .ra byte contents formatted by the built CLI",
          "Held on generated files (structured, hostile, byte-fragment lanes); LF or CRLF terminators only."),
- "C10": ("exploration", "4 C10", "metamorphic: generate before/after format, line sequence with white space removed",
+ "C10": ("exploration", "4 C10", "metamorphic: generate before/after format, line sequence with white space removed; format --all over trees of 6 and of 96 files (the latter also on a build with the race detector)",
          "Held on generated files; generate's stdout and exit status are compared byte-wise."),
  "C11": ("exploration", "4 C11", "byte-exact prediction of the rules file after update (the harness renders the file), tree snapshot",
          "Held on generated CRS-layout rules files; id action on the line after the SecRule line."),
  "C12": ("exploration", "4 C12", "history monitor update -> compare -> update -> edit one byte -> compare",
          "Held on generated trees; one edit per history at a PRNG-chosen offset."),
- "C13": ("exploration", "4 C13", "independent line model of renumber-tests, byte comparison, idempotence, --check agreement",
+ "C13": ("exploration", "4 C13", "independent line model of renumber-tests, byte comparison, idempotence, --check agreement; --all over 60 files on the ordinary build and on a build with the race detector",
          "Held on generated ftw YAML files; at most one of the two keys per line."),
  "C14": ("exploration", "4 C14", "sequence monitor over 1..3 update-copyright runs with a line model of every marker kind",
          "Held on generated files and version sequences from the accepted forms."),
  "C15": ("exploration", "4 C15", "strace system-call monitor plus sandbox snapshots against a path model of allowed targets",
          "strace -f sees all file-related system calls of the CLI; held on the generated trees and 32 command lines."),
- "C16": ("fault_enumeration", "4 C16", "single-fault injection over an enumerated catalogue x positions x commands, plus system-call fault injection (strace: failing reads, writes, directory listings on one file of the tree); exit status, stdout and snapshot oracle",
+ "C16": ("fault_enumeration", "4 C16", "single-fault injection over an enumerated catalogue x positions x commands, plus system-call fault injection (strace: failing reads, writes, directory listings on one file of the tree); exit status, stdout and snapshot oracle; a faulty last file of format --all in 25 repeated runs and on a build with the race detector",
          "Catalogue enumerated completely per tree; --all is atomic per assembly file."),
- "C17": ("exploration", "4 C17", "conservation monitor: every entry / line of inputs with one line of 1 B..1 MiB must survive or the command must fail loudly; also under injected read faults in the middle of a file",
+ "C17": ("exploration", "4 C17", "conservation monitor: every entry / line of inputs with one line of 1 B..1 MiB must survive (the generated regex accepts it as a whole) or the command must fail loudly; also under injected read faults in the middle of a file, with a 5 MiB exclude file, and under a file size limit (prlimit --fsize)",
          "Lengths and positions enumerated; membership decided by Go's regexp."),
  "C18": ("fault_enumeration", "4 C18", "enumerated argument table (K = 0..300 and beyond) observed through distinct tokens per file and chain position; root resolution over nested roots",
          "Model of the grammar written from the statement; distinct content identifies the resolved file, rule and offset."),
